@@ -15,6 +15,11 @@
 (*   clear           only the source features stay                          *)
 (*   select S.. [-v] [-s strand]   source features and those accepted       *)
 (*   define K LOC [-q n=v]   sorted insertion of one new feature            *)
+(*   annotate TABLE  sorted insertion of every feature of TABLE              *)
+(*   search -e @Q [-k K] [-q n=v] [--no-complement]   one feature per        *)
+(*                   (overlapping, case-insensitive) occurrence of Q, and    *)
+(*                   one complement(...) feature per occurrence of Q on the  *)
+(*                   reverse strand                                          *)
 (*   length          one line per record: its length                        *)
 (* Everything a command does not name (residues, topology, references,     *)
 (* features it does not touch) must come out as it went in.                 *)
@@ -75,6 +80,36 @@ Selected(f, sels, invert, strand) ==
   LET hit == \E j \in 1..Len(sels) : SelHolds(sels[j], f)
   IN (f.key = "source" \/ (IF invert THEN ~hit ELSE hit)) /\ OnStrand(f, strand)
 
+\* ------------------------------------------------------ added features
+\* sorted insertion of the features adds into the table of record a, giving b
+AsTuple(f) == <<f.key, f.label, f.loc, f.props>>
+AddsRule(a, b, adds, tag) ==
+  LET inb == [q \in 1..(Len(a.feats) + Len(adds)) |-> IF q <= Len(a.feats) THEN AsTuple(a.feats[q]) ELSE AsTuple(adds[q - Len(a.feats)])]
+      outb == [q \in 1..Len(b.feats) |-> AsTuple(b.feats[q])]
+      bag(xs, x) == Cardinality({q \in 1..Len(xs) : xs[q] = x})
+      new == {AsTuple(adds[q]) : q \in 1..Len(adds)}
+      O == Proj(b, [q \in 1..Len(b.res) |-> q])
+      S == Proj(a, [q \in 1..Len(a.res) |-> q])
+  IN (IF RestSame(a, b) THEN {} ELSE W("rest-changed", tag))
+     \cup (IF Len(inb) # Len(outb) \/ \E q \in 1..Len(inb) : bag(inb, inb[q]) # bag(outb, inb[q]) THEN W("added-multiset", tag) ELSE {})
+     \cup (IF OrderOK(S) = {} /\ OrderOK(O) # {} THEN W("added-order", tag) ELSE {})
+     \* the old features keep their relative order
+     \cup (IF FeatsSame(SelectSeq(b.feats, LAMBDA f : AsTuple(f) \notin new), SelectSeq(a.feats, LAMBDA f : AsTuple(f) \notin new))
+          THEN {} ELSE W("added-reordered", tag))
+
+\* exact, case-insensitive occurrences of q (ASCII codes) in res, 0-based starts
+Low(c) == IF c >= 65 /\ c <= 90 THEN c + 32 ELSE c
+FwdHits(res, q) == {i \in 0..(Len(res) - Len(q)) : \A j \in 1..Len(q) : Low(res[i + j]) = Low(q[j])}
+\* occurrences on the reverse strand: q read along the complement of res[i..i+n) backwards
+RevHits(res, q) == {i \in 0..(Len(res) - Len(q)) : \A j \in 1..Len(q) : Low(CompOf(res[i + Len(q) + 1 - j])) = Low(q[j])}
+SearchAdds(res, sem) ==
+  LET n == Len(sem.query)
+      mk(t) == [key |-> sem.key, label |-> "", loc |-> t, props |-> sem.props]
+      starts == [i \in 1..(Len(res) - n + 1) |-> i - 1]
+      fw == IF n = 0 THEN <<>> ELSE SelectSeq(starts, LAMBDA i : i \in FwdHits(res, sem.query))
+      rv == IF n = 0 \/ sem.nocomp THEN <<>> ELSE SelectSeq(starts, LAMBDA i : i \in RevHits(res, sem.query))
+  IN [j \in 1..Len(fw) |-> mk(Rg(fw[j], fw[j] + n, FALSE, FALSE))] \o [j \in 1..Len(rv) |-> mk(Cp(Rg(rv[j], rv[j] + n, FALSE, FALSE)))]
+
 \* ------------------------------------------------------------- judgement
 \* e: [cmd, sem (structured arguments), ins, outs, lines, status]
 JudgeStream(e) ==
@@ -111,22 +146,12 @@ JudgeStream(e) ==
                      IN (IF RestSame(ins[j], outs[j]) THEN {} ELSE W("rest-changed", ToString(j)))
                         \cup (IF FeatsSame(got, want) THEN {} ELSE W("select-features", ToString(j)))
                     : j \in 1..n}
-    [] e.cmd = "define" ->
+    [] e.cmd \in {"define", "annotate"} ->
          IF m # n THEN W("out-count", "-")
-         ELSE UNION {LET new == [key |-> e.sem.key, label |-> e.sem.label, loc |-> e.sem.loc, props |-> e.sem.props]
-                         asTuple(f) == <<f.key, f.label, f.loc, f.props>>
-                         inb == [q \in 1..(Len(ins[j].feats) + 1) |-> IF q <= Len(ins[j].feats) THEN asTuple(ins[j].feats[q]) ELSE asTuple(new)]
-                         outb == [q \in 1..Len(outs[j].feats) |-> asTuple(outs[j].feats[q])]
-                         bag(xs, x) == Cardinality({q \in 1..Len(xs) : xs[q] = x})
-                         O == Proj(outs[j], [q \in 1..Len(outs[j].res) |-> q])
-                         S == Proj(ins[j], [q \in 1..Len(ins[j].res) |-> q])
-                     IN (IF RestSame(ins[j], outs[j]) THEN {} ELSE W("rest-changed", ToString(j)))
-                        \cup (IF Len(inb) # Len(outb) \/ \E q \in 1..Len(inb) : bag(inb, inb[q]) # bag(outb, inb[q]) THEN W("define-multiset", ToString(j)) ELSE {})
-                        \cup (IF OrderOK(S) = {} /\ OrderOK(O) # {} THEN W("define-order", ToString(j)) ELSE {})
-                        \* the old features keep their relative order
-                        \cup (IF FeatsSame(SelectSeq(outs[j].feats, LAMBDA f : asTuple(f) # asTuple(new)),
-                                           SelectSeq(ins[j].feats, LAMBDA f : asTuple(f) # asTuple(new))) THEN {} ELSE W("define-reordered", ToString(j)))
-                    : j \in 1..n}
+         ELSE UNION {AddsRule(ins[j], outs[j], e.sem.adds, ToString(j)) : j \in 1..n}
+    [] e.cmd = "search" ->
+         IF m # n THEN W("out-count", "-")
+         ELSE UNION {AddsRule(ins[j], outs[j], SearchAdds(ins[j].res, e.sem), ToString(j)) : j \in 1..n}
     [] e.cmd = "length" ->
          IF e.lines # [j \in 1..n |-> ToString(Len(ins[j].res))] THEN W("length-lines", "-") ELSE {}
     [] OTHER -> W("unknown-command", "-")
